@@ -129,7 +129,7 @@ def success(p):
 def run(chk, tier):
     P = Prog("default")
     chk.configs.add("default")
-    for r in (r_mustread, r_verify_sets, r_ambiguous_pick, r_offset_used, r_who_writes, r_setter_boxes, r_setter_fields, r_resolve_year, r_absint):
+    for r in (r_mustread, r_verify_sets, r_ambiguous_pick, r_offset_used, r_who_writes, r_setter_boxes, r_setter_fields, r_resolve_year, r_resolve_year_map, r_offset_optional, r_verify_halves, r_absint):
         chk.guarded(r, P, tier)
     chk.assume("that resolution succeeds exactly on the documented sufficient combinations, and the error classification (not enough / impossible / out of range), are not decided")
     return {
@@ -376,3 +376,139 @@ def r_absint(chk, P, tier):
     res = e1.run_engine(P, tier)
     e1.report(chk, P, res, "ABSINT.parsed", "arithmetic, casts and unwraps in parsed.rs are discharged or justified with every Parsed field at full range",
               fn_filter=lambda fn: "format::parsed::" in fn, floor=20)
+
+
+def _err_kind(v):
+    """ParseErrorKind variant name inside a folded Err(ParseError(kind)) constant"""
+    st = [v]
+    while st:
+        x = st.pop()
+        if isinstance(x, tuple):
+            if len(x) == 2 and x[0] == "variant":
+                return x[1]
+            st.extend(x)
+    return None
+
+
+def r_resolve_year_map(chk, P, tier):
+    """resolve_year (the year / century / two-digit-year combination rule shared by the calendar and the ISO-week year) folded as a finite map over a product of
+    boundary values per argument and every two-digit value, against the documented rule: the full year wins if the other two agree with it, century*100 + two-digit
+    year otherwise, the two-digit year alone is read with the 1970..=2069 pivot; a negative year or century with the others present is impossible; a two-digit value
+    outside 0..=99 is out of range; a century alone is not enough"""
+    from finmap import Folder, show, Unknown, _opt
+    chk.rule("MAP.resolve_year", "resolve_year(year, century, two-digit year) evaluated over boundary values of each argument and all two-digit years equals the documented combination rule", floor=1000)
+    fn = F + "to_naive_date::resolve_year"
+    fo = Folder(P, max_depth=8)
+    I32 = 2**31 - 1
+
+    def O(v):
+        return _opt(v is not None, ("const", v) if v is not None else None)
+
+    def oracle(y, q, r):
+        if q is None and r is None:
+            return ("Ok", y)
+        if r is not None and not 0 <= r <= 99:
+            return ("Err", "OutOfRange")
+        if y is not None:
+            if y < 0:
+                return ("Err", "Impossible")
+            return ("Ok", y) if (q is None or q == y // 100) and (r is None or r == y % 100) else ("Err", "Impossible")
+        if q is not None and r is not None:
+            if q < 0:
+                return ("Err", "Impossible")
+            return ("Ok", q * 100 + r) if q * 100 + r <= I32 else ("Err", "OutOfRange")
+        if r is not None:
+            return ("Ok", r + (2000 if r < 70 else 1900))
+        return ("Err", "NotEnough")
+    Y = (None, -1, 0, 5, 99, 100, 1969, 1970, 2015, 2069, 12345, I32)
+    Q = (None, -1, 0, 19, 20, 21, 123, 21474836, 21474837)
+    R = (None, -1, 0, 15, 45, 69, 70, 99, 100)
+    dom = [(y, q, r) for y in Y for q in Q for r in R] + [(None, None, r) for r in range(100)] + [(None, 20, r) for r in range(100)] + [(2015, None, r) for r in range(100)]
+    bad = {}
+    n = 0
+    for a in dom:
+        try:
+            v = show(fo.call(fn, [O(x) for x in a]))
+            if v[0] == "Result::Ok":
+                got = ("Ok", None if v[1] == "Option::None" else v[1][1])
+            else:
+                got = ("Err", _err_kind(v))
+        except Unknown as e:
+            got = ("unknown", str(e))
+        want = oracle(*a)
+        if got != want:
+            cls = "year %s, century %s, two-digit %s" % tuple("absent" if x is None else "given" for x in a)
+            bad.setdefault(cls, (a, got, want))
+        else:
+            n += 1
+    for _ in range(n):
+        chk.ok("resolve_year value")
+    for cls, (a, got, want) in sorted(bad.items()):
+        chk.bad("resolve_year(%s)" % cls, "resolve_year%s = %s, the documented rule gives %s" % (a, got, want), loc=P.loc(fn))
+
+
+def r_offset_optional(chk, P, tier):
+    """an offset is one of the optional fields: when none was supplied, the offset check of to_datetime_with_timezone has nothing to contradict and must hold
+    (folded with the offset field bound to None); a supplied offset is compared with the candidate's own offset"""
+    from finmap import Folder, show, Unknown, _opt
+    chk.rule("CHECK.offset_optional", "the offset check of to_datetime_with_timezone holds when no offset was supplied, and compares the candidate's local_minus_utc with the supplied one otherwise", floor=2)
+    fs = fields(P)
+    idx = fs.index("offset")
+    cands = []
+    for c in P.closures_of(F + "to_datetime_with_timezone"):
+        if c.count("{closure") != 1:
+            continue
+        keys = set()
+        rets = []
+        for p in Sym(P, c).paths():
+            ts = [x[1] for x in p.conds] + ([p.ret] if p.end[0] == "return" else [])
+            for t in ts:
+                for x in walk_terms(t):
+                    if x[0] == "field" and x[2] == idx and pp(x).startswith("**arg1.0"):
+                        keys.add(pp(x))
+            if p.end[0] == "return":
+                rets.append(p.ret)
+        if keys and P.ty_s(P.fn(c)["mir"]["locals"][0]) == "bool":
+            cands.append((c, keys, rets))
+    if len(cands) != 1:
+        raise AnchorLost("to_datetime_with_timezone: expected one bool closure reading self.offset, found %s" % [c[0] for c in cands])
+    c, keys, rets = cands[0]
+    if len(keys) != 1:
+        raise AnchorLost("offset check reads the offset through %s" % sorted(keys))
+    key = keys.pop()
+    fo = Folder(P)
+    try:
+        got = show(fo.call(c, [("arg", 1), ("arg", 2)], bind={key: _opt(False)}))
+    except Unknown as e:
+        got = "unknown: %s" % e
+    chk.expect(got is True, "no offset supplied", "the offset check evaluates to %s when no offset field was supplied (nothing to contradict: expected true)" % (got,), loc=P.loc(c))
+    cmp_ok = any(is_call(x, suffix="local_minus_utc") for r in rets for x in walk_terms(r)) or any(
+        is_call(x, suffix="local_minus_utc") for c2 in P.closures_of(c) for p in Sym(P, c2).paths() if p.end[0] == "return" for x in walk_terms(p.ret))
+    chk.expect(cmp_ok, "offset supplied", "the offset check does not compare the candidate's local_minus_utc() with the supplied offset", loc=P.loc(c))
+
+
+def r_verify_halves(chk, P, tier):
+    """the verify closures of to_naive_date compare the supplied century with year / 100 and the supplied two-digit year with year % 100 (calendar and ISO-week
+    year alike): in every comparison that reads a *_div_100 field the computed side is a quotient by 100 and never a remainder, and the reverse for *_mod_100"""
+    chk.rule("PAIR.verify_halves", "in the verify closures of to_naive_date a *_div_100 field is compared with (year / 100) and a *_mod_100 field with (year % 100), never crosswise", floor=4)
+    fs = fields(P)
+    want = {fs.index("year_div_100"): "Div", fs.index("isoyear_div_100"): "Div", fs.index("year_mod_100"): "Rem", fs.index("isoyear_mod_100"): "Rem"}
+    seen = {}
+    for c in P.closures_of(F + "to_naive_date"):
+        if c.count("{closure") != 1:
+            continue
+        for p in Sym(P, c).paths():
+            ts = [x[1] for x in p.conds if x[0][0] == "switch"] + ([p.ret] if p.end[0] == "return" else [])
+            for t in ts:
+                fl = {x[2] for x in walk_terms(t) if x[0] == "field" and x[2] in want and pp(x).startswith("**arg1.0")}
+                if len(fl) != 1:
+                    continue
+                i = fl.pop()
+                ops = {x[1] for x in walk_terms(t) if x[0] == "bin" and x[1] in ("Div", "Rem") and const_of(x[3]) == 100}
+                if not ops:
+                    continue        # the comparison against None (negative years)
+                seen.setdefault(i, set()).update(ops)
+    for i, op in sorted(want.items()):
+        if i not in seen:
+            raise AnchorLost("to_naive_date: no verify closure compares %s with a computed half of the year" % fs[i])
+        chk.expect(seen[i] == {op}, fs[i], "the supplied %s is compared with a value computed by %s by 100 (expected %s only)" % (fs[i], sorted(seen[i]), "the quotient" if op == "Div" else "the remainder"), loc=P.loc(F + "to_naive_date"))
